@@ -200,6 +200,21 @@ func GenWorld(rng *rand.Rand, o WorldOpts) *World {
 			if rng.Intn(2) == 0 {
 				deep = join(strings.Repeat("l", 63), deep)
 			}
+			if rng.Intn(3) == 0 {
+				// the longest names there are: 254 or 255 octets on the wire
+				target := 252 + rng.Intn(2)
+				for len(deep) < target {
+					rem := target - len(deep) - 1
+					l := rem
+					if l > 63 {
+						l = 63
+						if rem-l == 1 {
+							l = 62
+						}
+					}
+					deep = join(strings.Repeat("m", l), deep)
+				}
+			}
 			b.addrLine(deep, false, locOf(), b.randIP(), 0)
 			if rng.Intn(2) == 0 {
 				b.txtLine(deep, false, locOf())
